@@ -178,7 +178,13 @@ class Universe:
             if isinstance(a, Rec) and isinstance(b, Rec):
                 if len(a.fields) != len(b.fields):
                     return False
-                return g_and(*[self.eq(x, y) for x, y in zip(a.fields, b.fields)])
+                gs = []
+                for x, y in zip(a.fields, b.fields):
+                    q = self.eq(x, y)
+                    if q is False:
+                        return False      # e.g. different ADT branch tags: the remaining fields have different shapes
+                    gs.append(q)
+                return g_and(*gs)
             other = b if isinstance(a, Rec) else a
             if isinstance(other, int):
                 return False   # a packed record is never nil / never equals a plain number in our fragment
